@@ -17,7 +17,9 @@ Definition run_addr (a : sx) : sx :=
   | SL (SN ver :: SBytes pk :: opts :: SBytes seed :: _) =>
       let has_seed := Nat.eqb (List.length seed) 32 in
       match ver_of_N ver with
-      | None => SL [(if has_seed then SA "err" else SA "skipped"); SA "err"; out_res SBytes (xhash (ocell (zeros 5) []))]
+      | None => SL [(if has_seed then SA "err" else SA "skipped"); SA "err"; out_res SBytes (xhash (ocell (zeros 5) []));
+                    match o_wc (opts_of_sx opts), o_sub (opts_of_sx opts), o_net (opts_of_sx opts) with
+                    | None, None, None => SA "none" | _, _, _ => SA "skip" end]
       | Some v =>
           let o := opts_of_sx opts in
           let pkb := bytes_to_bits pk in
@@ -30,7 +32,13 @@ Definition run_addr (a : sx) : sx :=
               end;
               out_res addr_sx (api_generate_address code_of xhash pkb v (o_net o) wc (o_sub o));
               out_res SBytes (do si <- api_generate_state_init code_of pkb v (o_net o) wc (o_sub o);
-                              xhash si)]
+                              xhash si);
+              (* GetCodeHashByVer *)
+              match o_wc o, o_sub o, o_net o with
+              | None, None, None =>
+                  match code_opt v with Some c => out_res SBytes (xhash c) | None => SA "none" end
+              | _, _, _ => SA "skip"       (* once per version is enough *)
+              end]
       end
   | _ => sx_err "addr"
   end.
@@ -138,6 +146,7 @@ Definition op_of_sx (a : sx) : option wop :=
             else if String.eqb s "address" then Some OAddress else None
   | SL [SA s; x] => match acct_of_sx x with Some (Some ac) => Some (ONext ac) | _ => None end
   | SL [SA _; _; c] => match cell_of_sx c with Some c' => Some (OMutate c') | None => None end
+  | SL [SA _; _; _; SBytes k] => Some (ORekey (bytes_to_bits (skipn 32 k)))
   | _ => None
   end.
 Definition ans_sx (x : wans) : sx :=
